@@ -129,9 +129,11 @@ class ASTString(ASTTemplate):
             signature = f"{node.signature_type} rule {node.element.value}"
 
         rules_strs = []
+        # Rules are rendered in the order they were defined, not in the dependency order of the DAG
+        source_rules = sorted(node.rules, key=lambda r: getattr(r, "_source_position", 0))
         if self.pretty:
             self.vtl_script += f"define hierarchical ruleset {node.name}({signature}) is{nl}"
-            for _i, rule in enumerate(node.rules):
+            for _i, rule in enumerate(source_rules):
                 rule_str = f"{tab}{self.visit(rule)}"
                 if rule.erCode is not None:
                     rule_str += f"{nl}{tab}errorcode {_handle_literal(rule.erCode)}"
@@ -143,7 +145,7 @@ class ASTString(ASTTemplate):
             self.vtl_script += rules + nl
             self.vtl_script += f"end hierarchical ruleset;{nl}"
         else:
-            for rule in node.rules:
+            for rule in source_rules:
                 rule_str = self.visit(rule)
                 if rule.erCode is not None:
                     rule_str += f" errorcode {_handle_literal(rule.erCode)}"
